@@ -45,6 +45,7 @@ def run(ctx):
     rule_types(ctx, F)
     rule_cut(ctx, F)
     rule_close(ctx, F)
+    rule_group(ctx, F)
     rule_params(ctx, F)
     rule_optout(ctx, F)
     rule_hash(ctx, F)
@@ -353,6 +354,15 @@ def rule_close(ctx, F):
                        % (fmt_path(path3) if path3 else ""), c.where(sorts[0]))
             ctx.ob(R, c, "every record is linked", sets[0] in cyclic_blocks(c),
                    "set_next_owner is not applied inside the loop over all records", c.where(sets[0]))
+            # ... in every iteration: no way round set_next_owner back to the loop head (a `continue` for a special case)
+            from rulelib import on_every_cycle
+            heads = [bb for bb, t in c.calls() if re.search(r"Iterator::next$|Peekable::<.*>::next$|::next$", t["fn"] or "") and bb in cyclic_blocks(c)
+                     and sets[0] in c.reach_from(bb) and bb in c.reach_from(sets[0])]
+            if ctx.anchor(R, "head of the NSEC3 linking loop", len(heads) >= 1, c.where(sets[0])):
+                ctx.ob(R, c, "no iteration of the linking loop skips set_next_owner", all(on_every_cycle(c, h, sets[0]) for h in heads),
+                       "the loop that links the NSEC3 records can go on to the next record without having set this one's next hashed "
+                       "owner: the record keeps the placeholder it was created with (a lone NSEC3 -- an apex-only zone -- does not "
+                       "point to itself) and the chain is not closed", c.where(sets[0]))
 
 
 def rule_params(ctx, F):
@@ -617,3 +627,32 @@ def _lin_counts(b, t, depth=0):
     if t[0] in ("local", "arg"):
         return {"%s%d" % (t[0], t[1]): 1}
     return {"?" + show(t)[:30]: 1}
+
+
+def rule_group(ctx, F):
+    """The records are sorted with the canonical (case-folding) order; the iterators that cut the sorted list into owners and
+    RRsets must group with the same notion of `same name` (name_eq / canonical_cmp / name_cmp), not with an octet-wise
+    comparison: `WWW A` and `www AAAA` are one owner and get one NSEC."""
+    R = "C13.group"
+    ctx.floor(R, 2)
+    n = 0
+    for p, b in sorted(F.bodies.items()):
+        if not re.match(r"^<dnssec::sign::records::(RecordsIter|RrsetIter|OwnerRrs)<.*> as core::iter::Iterator>::next$", p):
+            continue
+        cmps = []
+        for bb, tt in b.calls():
+            fn = tt["fn"] or ""
+            if re.search(r"ToName::(name_eq|name_cmp|composed_cmp|lowercase_composed_cmp)$|CanonicalOrd(<.*>)?::canonical_cmp$|PartialEq(<.*>)?::(eq|ne)$", fn):
+                a0 = show(deep_strip(b.term_of_operand(tt["args"][0])))
+                if "owner(" in a0:
+                    cmps.append((bb, fn.split("::")[-1]))
+        if not cmps:
+            continue
+        for bb, k in cmps:
+            n += 1
+            ctx.ob(R, b, "owners are grouped with the case-insensitive notion of equality the sort uses", k in ("name_eq", "name_cmp", "canonical_cmp", "lowercase_composed_cmp"),
+                   "%s decides whether the next record has the same owner with `%s`, which is octet-wise, while the records were "
+                   "sorted case-insensitively: one owner written with different case on different records is split into two "
+                   "groups -- two NSECs for one name, a DS taken for a record below the cut"
+                   % (re.sub(r"<.*", "", p.lstrip("<")).split("::")[-1] + "::next", k), b.where(bb))
+    ctx.ob(R, "dnssec::sign::records", "grouping iterators found", n >= 2, "only %d owner comparisons found in the grouping iterators" % n, nontrivial=False)
